@@ -120,6 +120,18 @@ def c16_cases(tier, seed):
                  leaf(7, d, vals[:-1] + [99]), {"op": "eq", "args": [7, 1]},
                  op("clone", [1], 8), {"op": "eq", "args": [8, 1]}]
         cases.append(steps)
+    # approximate equality (approx::AbsDiffEq / RelativeEq): same dims and element-wise closeness
+    for d in shapes(2, 3):
+        n = prod(d)
+        base = [F(k - 2, 2) for k in range(n)]
+        for delta, eps, rel in ((0, F(1, 8), F(1, 8)), (F(1, 8), F(1, 8), 0), (F(1, 4), F(1, 8), F(1, 16)), (F(1, 4), F(1, 8), 1),
+                                (F(1, 1024), 0, F(1, 256)), (F(-1, 4), F(1, 2), 0)):
+            other = [v + (delta if k == n - 1 else 0) for k, v in enumerate(base)]
+            steps = [RESET, leaf(1, d, base), leaf(2, d, other, trk=True), leaf(3, [n, 1] if len(d) == 1 else d[::-1], other),
+                     {"op": "abs_diff_eq", "args": [1, 2], "eps": sc(eps)}, {"op": "relative_eq", "args": [1, 2], "eps": sc(eps), "rel": sc(rel)},
+                     {"op": "abs_diff_eq", "args": [2, 1], "eps": sc(eps)}, {"op": "relative_eq", "args": [2, 1], "eps": sc(eps), "rel": sc(rel)},
+                     {"op": "abs_diff_eq", "args": [1, 3], "eps": sc(4)}, {"op": "relative_eq", "args": [1, 3], "eps": sc(4), "rel": sc(1)}]
+            cases.append(steps)
     return cases
 
 
